@@ -10,6 +10,7 @@ import (
 	"fmt"
 	"math/rand"
 	"net"
+	"sync"
 	"sync/atomic"
 	"time"
 
@@ -363,6 +364,60 @@ func init() {
 			}
 			probe(h.name)
 		}
+		// clients that fire body-dependent requests (well-formed and cut short) at full speed while the established session makes
+		// its own: every reply the established session gets is computed from its own request, whatever the neighbours send
+		{
+			var fw sync.WaitGroup
+			stopFlood := make(chan struct{})
+			for k := 0; k < 3; k++ {
+				fp := []byte{0x01, 0x33, 0x00, 0x00, 0x09, byte(k)}
+				ft := l.dial(fp, 0)
+				var progress atomic.Int64
+				l.muted.Store(ft.idx, &progress)
+				l.rec.log(ft.idx, "D", "hostile", "name", "flood-of-body-dependent-requests-beside-the-established-session")
+				fw.Add(1)
+				go func(ft *term, seed int64) {
+					defer fw.Done()
+					rr := rand.New(rand.NewSource(seed))
+					for i := 0; i < 4000; i++ {
+						select {
+						case <-stopFlood:
+							ft.close(false)
+							return
+						default:
+						}
+						body := randBytes(rr, 36+rr.Intn(20))
+						if rr.Intn(3) == 0 {
+							body = body[:rr.Intn(36)] // too short for its fixed fields
+						}
+						id := []int{0x0801, 0x0801, 0x0102, 0x1211}[rr.Intn(4)]
+						if id == 0x1211 {
+							body = append([]byte{byte(3 + rr.Intn(5))}, randBytes(rr, 12)...)
+						}
+						ft.conn.SetWriteDeadline(time.Now().Add(2 * time.Second))
+						if _, err := ft.conn.Write(ft.frame(id, body)); err != nil {
+							break
+						}
+					}
+					ft.close(false)
+				}(ft, r.Int63())
+			}
+			for i := 0; i < 150; i++ {
+				body := randBytes(r, 36+r.Intn(30))
+				canary.send(canary.frame([]int{0x0801, 0x0102}[i%5/4], body))
+				nrecv++
+				if i%10 == 9 {
+					canary.waitRecv(nrecv, 8*time.Second)
+				}
+			}
+			canary.waitRecv(nrecv, 8*time.Second)
+			close(stopFlood)
+			fw.Wait()
+			for len(canary.recvCh) > 0 {
+				<-canary.recvCh
+			}
+		}
+		probe("flood-of-body-dependent-requests-beside-the-established-session")
 		// a client that presents the established session's key is refused; the established session keeps its registration
 		for i := 0; i < 3; i++ {
 			d := l.dial(cphone, 0)
